@@ -898,7 +898,7 @@ impl<'a> LabelValue<'a> {
             self.target.buf.push_str(", ");
         }
         write!(
-            &mut self.target.buf, "{name}=\"{value}\""
+            &mut self.target.buf, "{name}=\"{}\"", EscapedLabelValue(value)
         ).expect("writing to string");
         self
     }
@@ -907,6 +907,40 @@ impl<'a> LabelValue<'a> {
         writeln!(
             &mut self.target.buf, "}} {value}"
         ).expect("writing to string");
+    }
+}
+
+
+//------------ EscapedLabelValue ---------------------------------------------
+
+/// Displays a label value with the escape sequences of the text format.
+///
+/// Within a label value, backslash, double quote and line feed have to be
+/// written as `\\\\`, `\\"` and `\\n`, respectively.
+struct EscapedLabelValue<T>(T);
+
+impl<T: fmt::Display> fmt::Display for EscapedLabelValue<T> {
+    fn fmt(&self, f: &mut fmt::Formatter) -> fmt::Result {
+        struct Escape<'a, 'f>(&'a mut fmt::Formatter<'f>);
+
+        impl fmt::Write for Escape<'_, '_> {
+            fn write_str(&mut self, mut s: &str) -> fmt::Result {
+                while let Some(idx) = s.find(['\\', '"', '\n']) {
+                    self.0.write_str(&s[..idx])?;
+                    self.0.write_str(
+                        match s.as_bytes()[idx] {
+                            b'\\' => "\\\\",
+                            b'"' => "\\\"",
+                            _ => "\\n",
+                        }
+                    )?;
+                    s = &s[idx + 1..];
+                }
+                self.0.write_str(s)
+            }
+        }
+
+        write!(&mut Escape(f), "{}", self.0)
     }
 }
 
